@@ -147,6 +147,7 @@ def main(argv):
   lib_used = set()
   assumptions = set()
   vacuous = []
+  bounded_cases = {}
   for r in results:
     functions.update(r["functions"])
     lib_used.update(r["lib_used"])
@@ -169,11 +170,17 @@ def main(argv):
           canary_bad += 1
           undecided.append((r["case"] + "/" + cname, "canary not refuted: the engine failed to refute a deliberately false clause"))
         continue
-      obligations += 1
       for k in c["known"]:
         known_hits.append((r, cname, k))
+      if r.get("bounded"):
+        b = bounded_cases.setdefault(r["case"], {"case": r["case"], "bound": r["bounded"], "clauses": 0, "held": 0})
+        b["clauses"] += 1
+        b["held"] += 1 if c["status"] == "discharged" else 0
+      else:
+        obligations += 1
       if c["status"] == "discharged":
-        discharged += 1
+        if not r.get("bounded"):
+          discharged += 1
       elif c["status"] == "failed":
         failed.append((r, cname, c))
       else:
@@ -296,7 +303,8 @@ def main(argv):
           "known_findings_not_reproduced": known_unconfirmed,
           "fixed": fixed,
           "undecided": [u[0] for u in undecided],
-          "bounded": meta.get("bounded", []),
+          "bounded": meta.get("bounded", []) + sorted(bounded_cases.values(), key=lambda b: b["case"]),
+          "bounded_note": "cases listed under 'bounded' are bounded stand-ins (bound stated per case); their clauses are NOT included in obligations/discharged",
           "samples": [s for r in results for s in r["samples"]][:4] or [{"note": "no sample"}],
       },
       "assumptions": sorted(set(meta.get("assumptions", [])) | assumptions),
@@ -312,7 +320,7 @@ def main(argv):
     return 3
   if violations:
     return 1
-  if undecided or vacuous or obligations == 0:
+  if undecided or vacuous or (obligations == 0 and not bounded_cases):
     return 2
   return 0
 
